@@ -119,7 +119,7 @@ def run_check(pid, tier, seed):
             if axs is None:
                 broken.append('theorem %s: no Print Assumptions output' % n)
                 continue
-            bad = [a for a in axs if a not in core.ALLOWED_AXIOMS and a.split('.')[-1] not in core.ALLOWED_AXIOMS]
+            bad = [a for a in axs if not core.axiom_allowed(a)]
             if bad:
                 broken.append('theorem %s depends on non-standard axioms %s' % (n, bad))
             else:
